@@ -234,6 +234,7 @@ def annotate(events):
     Indexes are 1-based positions in the event list."""
     HASH = {"crypt_rn", "crypt_r", "xcrypt_r", "crypt", "fcrypt", "xcrypt", "crypt_ra"}
     seen = {}
+    anyfirst = {}
     byout = {}
     for i, ev in enumerate(events, 1):
         if ev.get("e") not in HASH:
@@ -256,6 +257,11 @@ def annotate(events):
         ev["rprev"] = seen.get(key + (1,), 0) if not ev.get("rel") else 0
         if (succ or ev.get("rel")) and kk not in seen:
             seen[kk] = i
+        # oprev: the first identical request to the same library, whatever its outcome (C07_SameOutcome)
+        ev["oprev"] = anyfirst.get(kk, 0)
+        if kk not in anyfirst and not any(x.get("failed") for x in ev.get("led", [])) and ev.get("errno") != 12 \
+                and (ev.get("e") != "crypt_rn" or ev.get("size", 0) >= 32768):
+            anyfirst[kk] = i
         if succ:
             o = (tuple(ev["out"]))
             if o in byout and byout[o][1] != key:
